@@ -284,4 +284,22 @@ def equalFoldAscii (s t : Bytes) (fuel : Nat := s.length + 1) : Bool :=
         let (r, w) := decodeRune (c :: s')
         foldEqAscii r d && equalFoldAscii ((c :: s').drop w) t' fuel
 
+/-- `_, e := strconv.ParseInt(s, 10, 64); e == nil` -/
+def parseIntOk (t : Bytes) : Bool := match parseInt t with | .ok _ => true | _ => false
+/-- `_, e := strconv.ParseFloat(s, 64); e == nil` -/
+def parseFloatOk (t : Bytes) : Bool := match parseFloat t with | .ok => true | _ => false
+
+/- ---------------- the five built-in scalar names ---------------- -/
+
+inductive Builtin | int | float | string | boolean | id
+  deriving DecidableEq, Repr, Inhabited
+
+def builtinOf (n : Bytes) : Option Builtin :=
+  if n = str "Int" then some .int
+  else if n = str "Float" then some .float
+  else if n = str "String" then some .string
+  else if n = str "Boolean" then some .boolean
+  else if n = str "ID" then some .id
+  else none
+
 end Gql.Strconv
